@@ -259,7 +259,12 @@ def cmd_check(a):
         },
         "assumptions": getattr(prop, "ASSUMPTIONS", []),
     }
-    path = evidence.write(pid, doc)
+    if os.environ.get("VERIF_NO_EVIDENCE") or env.REPO != "/repo":
+        # evidence is only ever written for the tree under /repo (mutant / old-tree runs leave it alone)
+        path = "(not written: VERIF_REPO is not /repo)"
+        evidence.validate(doc)
+    else:
+        path = evidence.write(pid, doc)
     print(
         f"runs={agg['runs']} steps={agg['steps']} distinct_nontrivial={doc['coverage']['distinct_nontrivial']} states={len(agg['states'])} "
         f"oracle={st.get('oracle', 0)} faults={sum(group('fault:').values())} det_checked={det_checked} wall={wall:.1f}s evidence={path}",
